@@ -282,7 +282,9 @@ class CParser:
         if not typename:
             # Functions default to returning int
             if not isinstance(decl.type, c_ast.FuncDecl):
-                self._parse_error("Missing type in declaration", decl.coord)
+                self._parse_error(
+                    "Missing type in declaration", decl.coord or self.clex.filename
+                )
             typ.type = c_ast.IdentifierType(["int"], coord=decl.coord)
         else:
             # At this point, we know that typename is a list of IdentifierType
@@ -341,7 +343,7 @@ class CParser:
                     or len(spec["type"][-1].names) != 1
                     or not self._is_type_in_scope(spec["type"][-1].names[0])
                 ):
-                    coord = "?"
+                    coord = self.clex.filename
                     for t in spec["type"]:
                         if hasattr(t, "coord"):
                             coord = t.coord
